@@ -352,15 +352,19 @@ def _flush_integrity(ctx, repo, m, cname, buf, flush, frame, methods):
             idx_attr = n.attr
     if idx_attr is None:
         raise AnalysisError("index-state attribute not found (has_index)")
-    helper = next((f for f in methods if any(isinstance(d, ast.Name) and d.id == "staticmethod" for d in f.node.decorator_list) and
+    # the index helper, by role: the function of this module (static method or module-level) that calls DataFrame.set_index on its
+    # argument and that the flush method uses to key the buffered rows
+    used_by_flush = {callee_name(c) for c in calls_in(fflush.node)}
+    helper = next((f for f in m.funcs.values() if f.parent is None and f.name in used_by_flush and (f.cls in (None, cname)) and
+                   (f.cls is None or any(isinstance(d, ast.Name) and d.id == "staticmethod" for d in f.node.decorator_list)) and
                    any(isinstance(c.func, ast.Attribute) and c.func.attr == "set_index" for c in calls_in(f.node))), None)
     if helper is None:
-        raise AnalysisError("index helper (static method calling DataFrame.set_index) not found")
+        raise AnalysisError("index helper (function calling DataFrame.set_index, used by the flush) not found")
     n_idx = 0
     for f in methods:
         if f.name in ("__init__", flush) or f is helper:
             continue
-        builds = [c for c in calls_in(f.node) if isinstance(c.func, ast.Attribute) and c.func.attr == helper.name]
+        builds = [c for c in calls_in(f.node) if callee_name(c) == helper.name]
         resets = [c for c in calls_in(f.node) if isinstance(c.func, ast.Attribute) and c.func.attr == "reset_index" and dotted(c.func.value) != "self"]
         stores = [n for n in walk_local(f.node) if isinstance(n, ast.Assign) and any(dotted(t) == f"self.{idx_attr}" for t in n.targets)]
         fstores = [n for n in walk_local(f.node) if isinstance(n, ast.Assign) and any(dotted(t) == f"self.{frame}" for t in n.targets)]
@@ -378,7 +382,8 @@ def _flush_integrity(ctx, repo, m, cname, buf, flush, frame, methods):
             ok = any(isinstance(s.value, ast.Constant) and s.value.value is None for s in stores)
             ctx.ob("C19-R6", f.fq, f"after resetting the index, self.{idx_attr} := None", ok, node=resets[0], construct=f"index reset without clearing self.{idx_attr}",
                    msg=f"{cname}.{f.name} drops the index but keeps self.{idx_attr}: later flushes upsert against a frame that has no index")
-            okf = any(any(c is r for c in calls_in(s)) for s in fstores for r in resets)
+            from ..common import resolve_single_assign as _rsa
+            okf = any(any(c is r for c in calls_in(s)) or any(c is r for c in ast.walk(_rsa(s.value, f.node))) for s in fstores for r in resets)
             ctx.ob("C19-R6", f.fq, f"the re-set frame is stored back into self.{frame}", okf, node=resets[0], construct="reset_index result not stored",
                    msg=f"{cname}.{f.name} computes the un-indexed frame but does not store it: the table keeps its index while claiming to have none")
     ctx.floor("C19-R6", "index build/reset methods", n_idx, 2)
@@ -535,7 +540,8 @@ def check(ctx):
     ctx.floor("C19-R5", "consumer call sites of the flushing accessor", n_cons, 2)
 
     # ---- R3 naming agreement of the helper index columns
-    creators = [f for f in methods if any(isinstance(c.func, ast.Attribute) and c.func.attr == "set_index" and
+    unit_fns = list(methods) + [f for f in m.funcs.values() if f.cls is None and f.parent is None]          # the helper may live at module level
+    creators = [f for f in unit_fns if any(isinstance(c.func, ast.Attribute) and c.func.attr == "set_index" and
                                           any(k.arg == "inplace" for k in c.keywords) for c in calls_in(f.node))]
     droppers = [f for f in methods if any(isinstance(c.func, ast.Attribute) and c.func.attr == "drop" and
                                           any(k.arg == "columns" for k in c.keywords) for c in calls_in(f.node))]
